@@ -154,7 +154,7 @@ def main(tier, replay):
         pipe = json.loads(w['pipe'])
         groups = {int(k): v for k, v in w['groups'].items()}
         tr, gs = pair_direct(random.Random(w.get('sched_seed', 0)), pipe, groups)
-        v, _ = C.validate_traces('PlainTrace', [{'pipe': pipe, 'modeled': modeled(pipe),
+        v, _ = C.validate_traces('PlainTrace', [{'pipe': pipe, 'modeled': modeled(pipe), 'oracle': 'pair',
                                                  'groups': [{k: g[k] for k in g if k != 'errtype'}
                                                             for g in gs]}])
         print('pipeline:', ' '.join(MC.op_names(pipe)))
@@ -217,7 +217,7 @@ def main(tier, replay):
         if any(g.get('errtype') in PRECOND_ERRORS for g in gs):
             skipped += 1          # first/last/mean(reduce) met an empty group: outside C01
             continue
-        traces.append({'pipe': pipe, 'modeled': modeled(pipe),
+        traces.append({'pipe': pipe, 'modeled': modeled(pipe), 'oracle': 'pair',
                        'groups': [{k: g[k] for k in g if k != 'errtype'} for g in gs]})
         mux_traces.append(tr)
         meta.append({'mode': mode, 'groups': groups, 'sched_seed': sched_seed if mode == 'direct' else 0})
@@ -231,7 +231,7 @@ def main(tier, replay):
                   for idx in rng.sample([0, 1, 3], rng.choice([1, 2, 3]))}
         sched_seed = rng.randint(0, 10**9)
         tr, gs = pair_direct(random.Random(sched_seed), pipe, groups)
-        traces.append({'pipe': pipe, 'modeled': True,
+        traces.append({'pipe': pipe, 'modeled': True, 'oracle': 'pair',
                        'groups': [{k: g[k] for k in g if k != 'errtype'} for g in gs]})
         mux_traces.append(tr)
         meta.append({'mode': 'direct', 'groups': groups, 'sched_seed': sched_seed})
